@@ -9,6 +9,7 @@
 import PgProofs.Evo
 import PgProofs.EvoPrims
 import PgProofs.EvoMut
+import PgProofs.EvoAlign
 import Mathlib.Data.List.Perm.Subperm
 namespace Pg.C14
 
@@ -175,26 +176,26 @@ theorem C14_primitive_mutUniform (fuel : Nat) (g : GSpec) : Closed g (mutUniform
   fun pop st out st' hp h y hy => ((mutUniform_spec fuel g pop st out st' hp h).2 y hy).1
 
 /-- `Swap` keeps validity … -/
-theorem C14_primitive_mutSwap (g : GSpec) : Closed g (mutSwap g) :=
+theorem C14_primitive_mutSwap_closed (g : GSpec) : Closed g (mutSwap g) :=
   fun pop st out st' hp h y hy => ((mutSwap_spec g pop st out st' hp h).2 y hy).1
 
-/-- … but not alignment (finding F21): full statement, counterexample, and what is proved instead. -/
-def C14_mutSwap_aligned_Full : Prop := ∀ g, ClosedAligned g (mutSwap g)
+/-- … and alignment: since /repo c8b4917 the two swapped entries are re-bound to the decision
+points of their new positions (`rebindEntry`). Before that fix this statement was false (finding
+F21; the branch history holds `C14_mutSwap_aligned_counterexample`, whose witness
+`DNA([0, 1])` under `manyof(2, 3 candidates, distinct)` is still replayed on every run as the
+witness of the now *fixed* finding). -/
+theorem C14_primitive_mutSwap (g : GSpec) : ClosedAligned g (mutSwap g) :=
+  fun pop st out st' hp h => mutSwap_aligned g pop st out st' hp h
 
 def f21Spec : GSpec := .choices 2 [.space [], .space [], .space []] true false
 def f21Dna : DNA := .choices [.sub 0 0 (.space []), .sub 1 1 (.space [])]
 
-theorem C14_mutSwap_aligned_counterexample : ¬ C14_mutSwap_aligned_Full := by
-  intro h
-  have := h f21Spec [{ uid := 0, dna := f21Dna, fit := some 1 }]
-    { oracle := [.idxs .shuffle 1 1 [0], .idxs .sample 2 2 [0, 1]], nextUid := 1 }
-    [{ uid := 1, dna := .choices [.sub 1 1 (.space []), .sub 0 0 (.space [])], fit := none }]
-    { oracle := [], nextUid := 2 }
-    (by intro x hx; simp only [List.mem_singleton] at hx; subst hx
-        exact ⟨by unfold Valid; decide, by unfold Aligned; decide⟩)
-    (by rfl)
-    _ List.mem_cons_self
-  exact absurd this.2 (by unfold Aligned; decide)
+/-- the F21 witness, now: the swapped child is valid and aligned. -/
+theorem C14_mutSwap_f21_witness :
+    mutSwap f21Spec [{ uid := 0, dna := f21Dna, fit := some 1 }]
+      { oracle := [.idxs .shuffle 1 1 [0], .idxs .sample 2 2 [0, 1]], nextUid := 1 } =
+    .ok ([{ uid := 1, dna := .choices [.sub 0 1 (.space []), .sub 1 0 (.space [])], fit := none }],
+         { oracle := [], nextUid := 2 }) := by rfl
 
 /-! ## The composition algebra: composed pipelines inherit the guarantees -/
 
@@ -290,6 +291,6 @@ example : ∀ op ∈ leaves (.seq (.leaf (selFirst (.count 1))) (.leaf (mutSwap 
   · intro pop st out st' hp h
     exact ((C14_selector_preserves (C14_selector_First _) (fun x => Valid f21Spec x.dna) (fun _ => True))
       pop st out st' hp trivial h).1
-  · exact C14_primitive_mutSwap _
+  · exact C14_primitive_mutSwap_closed _
 
 end Pg.C14
